@@ -18,7 +18,7 @@ from . import c01, c02
 PROP = 'C04'
 MODULES = ['Cnl2aspModel.Props.C04']
 THEOREMS = ['C04_main', 'C04_direction_partial', 'C04_sign', 'C04_priority', 'C04_cost_unique', 'C04_aggregate_cost', 'C04_situation_cost',
-            'C04_highest_level_first']
+            'C04_variable_cost', 'C04_highest_level_first']
 EXTRA = c01.EXTRA + ['Cnl2aspModel.Asp.Opt', 'Cnl2aspModel.Cnl.Pref', 'Cnl2aspModel.Asp.AggLemmas']
 FINDING_MODULES = ['Cnl2aspModel.Findings.C04']
 
